@@ -35,7 +35,7 @@ static void vd_dump_ctx(FILE *o, struct context_data *ctx, int what, int raw)
 	if (!raw) xmp_get_module_info((xmp_context)ctx, &mi);
 	mod = &ctx->m.mod;
 	/* raw = what a loader left behind, before the sanity gate: tables may be missing */
-	if (raw) fprintf(o, "PREGATE %d %d\n", mod->xxp ? 1 : 0, mod->xxt ? 1 : 0);
+	if (raw) fprintf(o, "PREGATE %d %d %d\n", mod->xxp ? 1 : 0, mod->xxt ? 1 : 0, (ctx->m.quirk & QUIRK_MARKER) ? 1 : 0);
 	fprintf(o, "MOD %d %d %d %d %d %d %d %d %d %d %d\n", mod->chn, mod->len, mod->pat, mod->trk, mod->ins, mod->smp, mod->spd, mod->bpm, mod->rst, mod->gvl, ctx->m.volbase);
 	fprintf(o, "NAME "); vd_hexname(o, mod->name, XMP_NAME_SIZE); fprintf(o, "\nTYPE "); vd_hexname(o, mod->type, XMP_NAME_SIZE); fputc('\n', o);
 	fprintf(o, "XXO"); for (i = 0; i < mod->len && i < XMP_MAX_MOD_LENGTH; i++) fprintf(o, " %d", mod->xxo[i]); fputc('\n', o);
